@@ -217,8 +217,13 @@ def run_sync(case):
     from dali import command
     drv = case["driver"]
     r = c18.rig(drv)
+    foreign = case.get("foreign")
+    if drv == "atx" and foreign is not None:
+        # one driver object through the whole history, nothing of it reset in between; before some answers the hat
+        # also reports lines that are not for us (frames of other bus masters)
+        r = c18.Atx()
     out = []
-    for c in case["cmds"]:
+    for n_cmd, c in enumerate(case["cmds"]):
         cmd = sc.build_cmd(c)
         oc = tuple(c.get("oc", ("silent",)))
         where = "%s %s outcome %r" % (drv, c, oc)
@@ -230,7 +235,16 @@ def run_sync(case):
 
             def script(data, line=line):
                 return [line, line] if data[:1] == b"t" else [line]
-            res, writes = r.send(cmd, script)
+            if foreign is not None:
+                extra = [("H%04X\n" % ((0xFE00 + 17 * n_cmd + k) & 0xFFFF)).encode() for k in range(foreign[n_cmd % len(foreign)])]
+
+                def script(data, line=line, extra=extra):      # noqa: F811
+                    return extra + ([line, line] if data[:1] == b"t" else [line])
+                r.writes = []
+                r.script = script
+                res, writes = c18._call(r.d.send, cmd), r.writes
+            else:
+                res, writes = r.send(cmd, script)
         if res[0] == "raised":
             out.append(("C16:%s:send-raised:%s" % (drv, type(res[1]).__name__), "%s: %r" % (where, res[1])))
             continue
@@ -610,6 +624,15 @@ def sync_case(draw):
     case = {"driver": drv, "cmds": cmds}
     if drv == "daliserver":
         case["persistent"] = draw(st.booleans())
+    elif draw(st.booleans()):
+        # a longer history on ONE hat driver object, with up to three foreign lines in front of an answer (the driver
+        # reads at most five lines per command)
+        more = []
+        for j in range(draw(st.integers(4, 14))):
+            c = {"k": draw(st.sampled_from(Q16)), "a": 10 + j, "oc": ["value", draw(st.integers(0, 255))] if draw(st.booleans()) else ["silent"]}
+            more.append(c)
+        case["cmds"] = cmds + more
+        case["foreign"] = draw(st.lists(st.integers(0, 3), min_size=1, max_size=5))
     return case
 
 
